@@ -311,6 +311,27 @@ impl Qcow2Header {
             return Err(format!("qcow2 cluster size {cluster_size} is too big").into());
         }
 
+        // table sizes drive allocations: hold them to the format's limits
+        let rt_size = (header.refcount_table_clusters as u64) << cluster_bits;
+        if rt_size > Self::MAX_REFCOUNT_TABLE_SIZE as u64 {
+            return Err(format!("qcow2 refcount table size {rt_size} is too big").into());
+        }
+
+        let l1_size = (header.l1_size as u64) * size_of::<u64>() as u64;
+        if l1_size > Self::MAX_L1_SIZE as u64 {
+            return Err(format!("qcow2 L1 table size {l1_size} is too big").into());
+        }
+
+        // what a maximal L1 table can map
+        let max_size = ((Self::MAX_L1_SIZE as u64 / size_of::<u64>() as u64)
+            * (cluster_size / size_of::<u64>() as u64))
+            .checked_mul(cluster_size)
+            .unwrap_or(u64::MAX);
+        let size = header.size;
+        if size > max_size || size > (1u64 << 62) {
+            return Err(format!("qcow2 virtual size {size} is too big").into());
+        }
+
         // the spec requires both tables to start at a cluster boundary,
         // and the cluster walk in check() relies on it
         let l1_table_offset = header.l1_table_offset;
